@@ -7,7 +7,7 @@
    event loop's delivery of cancellations, the driver model io_step. *)
 From Coq Require Import List ZArith Bool Arith.
 Import ListNotations.
-From SAV.engine Require Import Async AsyncConn AsyncExec AsyncWorld AsyncSafe AsyncApi AsyncWitness.
+From SAV.engine Require Import Async AsyncConn AsyncExec AsyncWorld AsyncSafe AsyncApi AsyncNoCancel AsyncLater AsyncWitness.
 Open Scope Z_scope.
 
 (* ---- 1. the trampoline: every sync program, every driver ---- *)
@@ -81,8 +81,8 @@ Theorem c29_cancel_safe_block :
   forall (cf : cfg), 1 <= psize cf ->
   forall (sty : style) (ops : list op) (s : pst) (w : world) (cs : list cdec),
     sty <> SLeak -> Done cf s w -> (ncancel cs <= 1)%nat ->
-    let '(_, s', w', cs') := exec (block cf async_api sty ops) s w cs in
-    Done cf s' w' /\ n_warn s' = n_warn s /\ (ncancel cs' <= 1)%nat.
+    let '(o, s', w', cs') := exec (block cf async_api sty ops) s w cs in
+    Done cf s' w' /\ n_warn s' = n_warn s /\ (ncancel cs' <= 1)%nat /\ (o = Ok VUnit \/ o = Raise ECancelled).
 Proof. exact block_safe. Qed.
 Print Assumptions c29_cancel_safe_block.
 
@@ -105,6 +105,36 @@ Theorem c29_cancel_safe_tasks :
     let '(s', w', _) := run_tasks cf bs (init_pst cf) init_world cs in Done cf s' w'.
 Proof. exact tasks_safe_init. Qed.
 Print Assumptions c29_cancel_safe_tasks.
+
+(* without a cancellation nothing in the modelled code raises CancelledError ... *)
+Theorem c29_block_not_cancelled :
+  forall (cf : cfg) (sty : style) (ops : list op) (s : pst) (w : world) (cs : list cdec),
+    ncancel cs = 0%nat ->
+    let '(o, _, _, _) := exec (block cf async_api sty ops) s w cs in o <> Raise ECancelled.
+Proof. exact block_not_cancelled. Qed.
+Print Assumptions c29_block_not_cancelled.
+
+(* ... so on a safe engine a block that is not cancelled completes and leaves the engine safe *)
+Theorem c29_later_ok :
+  forall (cf : cfg), 1 <= psize cf ->
+  forall (sty : style) (ops : list op) (s : pst) (w : world) (cs : list cdec),
+    sty <> SLeak -> Done cf s w -> ncancel cs = 0%nat ->
+    let '(o, s', w', _) := exec (block cf async_api sty ops) s w cs in
+    o = Ok VUnit /\ Done cf s' w' /\ n_warn s' = n_warn s.
+Proof. exact later_ok. Qed.
+Print Assumptions c29_later_ok.
+
+(* the cancellation clause of C29 in one statement: tasks with at most one cancellation anywhere, then
+   "later operations on the engine work" *)
+Theorem c29_later_operations_work :
+  forall (cf : cfg), 1 <= psize cf ->
+  forall (bs : list (style * list op)) (cs : list cdec) (sty : style) (ops : list op),
+    sty <> SLeak -> (ncancel cs <= 1)%nat ->
+    let '(s1, w1, _) := run_tasks cf bs (init_pst cf) init_world cs in
+    let '(o, s', w', _) := exec (block cf async_api sty ops) s1 w1 [] in
+    o = Ok VUnit /\ Done cf s' w'.
+Proof. exact later_operations_work. Qed.
+Print Assumptions c29_later_operations_work.
 
 Example c29_hypotheses_satisfiable : Done cf2 (init_pst cf2) init_world /\ 1 <= psize cf2.
 Proof. exact cf2_ok. Qed.
